@@ -908,11 +908,13 @@ def oracle(case, r):
     expected = None  # version of the newest completed save since the last delete
     inflight: set[int] = set()  # versions of interrupted saves (serialisable content) after it
     default = case["fname"] == "default"
+    prev_fs = None
     for k, rec in enumerate(r.get("recs", [])):
         op, res = rec["op"], rec["res"]
         if res == "bad-op":
             continue
         n0 = len(fails)
+        before_fs, prev_fs = prev_fs, rec["fs"]
         pr, fs = rec["probe"], rec["fs"]
         trig = {"save": "save" if res == "saved" else "save-failed", "crash": "crash"}.get(op[0], op[0])
         cut = rec.get("cut_after", "")
@@ -966,8 +968,10 @@ def oracle(case, r):
             if left:
                 add(_f("delete-leaves-files", "delete", "present", k, op, f"files {fs}"))
             elif left_tmp:
+                had_final = bool(before_fs) and any(before_fs[x] != "absent" for x in ("pckl", "cpckl"))
                 add(_f("delete-leaves-files", "delete", "leftover", k, op,
-                       f"what an interrupted save left behind is still there, and so is the directory: files {fs}"))
+                       f"what an interrupted save left behind is still there, and so is the directory: files {fs}",
+                       had_final=had_final))
             elif fs["dir"] == 1 and not fs["extra"]:
                 add(_f("delete-leaves-empty-directory", "delete", "present", k, op, f"files {fs}"))
             elif pr["load"] != "notFound":
